@@ -197,9 +197,9 @@ Release(d, u, a, n, s, t) ==
 Close(d, u, a, i, s, mood, t) ==
   IF MbRows(d, a, i) = {} \/ ~(\E r \in d.mbs : r.mbox = i /\ r.side = s)
   THEN [db |-> d, udb |-> u, tr |-> <<>>, deleted |-> FALSE]
-  ELSE LET d1 == [d EXCEPT !.mbs = {IF r.mbox = i /\ r.side = s
-                                    THEN [r EXCEPT !.opened = FALSE, !.mood = mood]
-                                    ELSE r : r \in @}]
+  ELSE LET d1 == Touch([d EXCEPT !.mbs = {IF r.mbox = i /\ r.side = s
+                                          THEN [r EXCEPT !.opened = FALSE, !.mood = mood]
+                                          ELSE r : r \in @}], i, t)   \* closing is activity (F9 repair)
            rows == MbSides(d1, i)
            forNp == (CHOOSE r \in MbRows(d, a, i) : TRUE).forNp
        IN IF \E r \in rows : r.opened
